@@ -12,12 +12,7 @@ from harness.drivers import same, constrain
 PID = 'C20'
 
 
-class HSym(Sym):
-    """Hashable symbolic scalar (cache keys need hashes; equality stays a solver decision)."""
-    __slots__ = ()
-
-    def __hash__(self):
-        return 12345
+from engine.sym import HSym, ISym  # noqa: E402
 
 
 def hvar(name):
@@ -408,6 +403,511 @@ _verdict(False, **out)
 ''' % (list(hist),)
 
 
+# --------------------------------------------------------------------------- (c) histories on the real centre-manifold service
+
+def cm_histories(chk, max_len):
+    """Real _CenterManifoldDynamicsService with the Hamiltonian pipeline and the map constructor as uninterpreted functions of
+    (point, degree[, energy]); degrees and energies are symbolic (integer-declared / real).  Differential against a FRESH service
+    put into the same logical state (degree): the last operation of every history must return the same value on both and leave
+    both in the same logical state."""
+    from hiten.algorithms.types.services import center as sc
+    cls = sc._CenterManifoldDynamicsService
+    chk.encode(cls.__dict__['degree'].fset, cls.__dict__['pipeline'].fget, cls.hamiltonian, cls.pipeline_for_degree, cls.get_map, cls.__dict__['hamsys'].fget)
+    saved = {n: getattr(sc, n) for n in ('get_hamiltonian_services', 'CenterManifoldMap')}
+
+    def pipe(point, degree):
+        d = Sym.lift(degree)
+        return Stub(tag=('PIPE', d), get_hamiltonian=lambda form: Stub(tag=('HAM', d, form), hamsys=('HAMSYS', d, form)))
+    sc.get_hamiltonian_services = lambda: Stub(conversion='CONV', pipeline=Stub(get=pipe))
+    sc.CenterManifoldMap = lambda dom, energy: ('MAP', Sym.lift(dom.dynamics.degree), Sym.lift(energy))
+    Svc = type('CM', (cls,), {'_configure_point': lambda self: None})
+
+    class Dom(Stub):
+        def __hash__(self):
+            return 7
+
+        def __eq__(self, o):
+            return self is o
+
+    def ivar(name):
+        return ISym(W.var(name).t)
+    D = [ivar('deg%d' % i) for i in range(3)]
+    E_ = [hvar('energy%d' % i) for i in range(2)]
+    ex = Explorer(max_paths=20000, time_budget_s=1500)
+    ex.congruence = True
+    with explore.activate(ex):
+        for d in D:
+            ex.assume(d >= 1)
+
+    counter = [0]
+
+    def fresh(degree):
+        counter[0] += 1
+        dom = Dom(_point='POINT', _max_degree=degree, __verif_id__=1000 + counter[0])
+        dom.dynamics = Svc(dom)
+        return dom.dynamics
+
+    def tagof(v):
+        return v.tag if isinstance(v, Stub) else v
+
+    def do(svc, op):
+        if op[0] == 'D':
+            svc.degree = D[int(op[1])]
+            return ('none',)
+        if op[0] == 'H':
+            return tagof(svc.hamiltonian(D[int(op[1])]))
+        if op == 'Y':
+            return svc.hamsys
+        if op == 'L':
+            return tagof(svc.pipeline)
+        if op[0] == 'M':
+            return svc.get_map(E_[int(op[1])])
+        raise AssertionError(op)
+
+    def run_history(hist):
+        counter[0] = 0
+        svc = fresh(D[2])
+        for op in hist[:-1]:
+            do(svc, op)
+        twin = fresh(svc.degree)          # a freshly constructed object in the same logical state
+        got, want = do(svc, hist[-1]), do(twin, hist[-1])
+        problems = []
+        if not eqv(got, want):
+            problems.append('returns a value that a fresh object in the same logical state would not compute')
+        if not eqv(svc.degree, twin.degree):
+            problems.append('leaves the object in a different logical state (degree) than it leaves a fresh object')
+        else:
+            # the state after the operation must also be observably the same: read the degree-dependent quantities once more
+            for probe in ('L', 'Y'):
+                if not eqv(do(svc, probe), do(twin, probe)):
+                    problems.append('a degree-dependent quantity read afterwards differs from a fresh object')
+                    break
+        return ['%s %s' % ({'D': 'setting the degree', 'H': 'hamiltonian(degree)', 'Y': 'hamsys', 'L': 'pipeline', 'M': 'poincare_map(energy)'}[hist[-1][0]], p) for p in problems]
+
+    alphabet = ['D0', 'D1', 'H0', 'H1', 'Y', 'L', 'M0', 'M1']
+    violations, nhist = {}, 0
+    try:
+        for L in range(1, max_len + 1):
+            for hist in itertools.product(alphabet, repeat=L):
+                nhist += 1
+                for p in ex.run(lambda h=hist: run_history(h)):
+                    if p.exc is not None:
+                        violations.setdefault('raised %s: %s' % (type(p.exc).__name__, str(p.exc)[:60]), (hist, {}, [hist]))
+                        continue
+                    for pr in p.value:
+                        if pr not in violations:
+                            v, m = ex.check(p.conds(), p.atoms())
+                            violations[pr] = (hist, model_to_env(m) if m is not None else {}, [hist])
+    finally:
+        for n, v in saved.items():
+            setattr(sc, n, v)
+    st = chk.absorb(ex)
+    chk.note('centre manifold: %d histories of length <= %d over %s' % (nhist, max_len, alphabet))
+    if ex.capped or ex.unknown or ex.nondeterministic:
+        chk.unknown('C20/(c)centre-manifold-histories/complete', 'exploration incomplete (capped=%s, unknown=%d, nondeterministic=%d)' % (ex.capped, ex.unknown, ex.nondeterministic))
+    if not violations:
+        chk.ok('C20/(c)centre-manifold-histories', '%d operation sequences of length <= %d over %s x all equality patterns of three symbolic degrees and two energies: the last operation returns the same value, and leaves the same state, as on a fresh service in the same logical state' % (nhist, max_len, alphabet),
+               sample={'histories': nhist, 'alphabet': alphabet})
+    for pr, (hist, env, alts) in violations.items():
+        chk.fail('C20/(c)centre-manifold-histories/' + pr[:80], '%s after the history %s%s' % (pr, list(hist), (' with ' + fmt_env(env)) if env else ''), _replay_cm(hist, env), env, replay_timeout=900)
+    return nhist
+
+
+def _replay_cm(hist, env):
+    """Real build: Earth-Moon L1 centre manifold; symbolic degrees mapped to small concrete degrees respecting the model's equalities."""
+    vals = {}
+    pool = [3, 2, 4]
+    for i in range(3):
+        v = env.get('deg%d' % i)
+        key = None if v is None else str(v)
+        if key is not None and key in vals:
+            continue
+        if key is not None:
+            vals[key] = pool[len(vals) % 3]
+    degs = [vals.get(str(env.get('deg%d' % i)), pool[i]) if env.get('deg%d' % i) is not None else pool[i] for i in range(3)]
+    return '''
+from hiten.system import System
+from hiten.system.center import CenterManifold
+HIST, DEG = %r, %r
+EN = [0.6, 0.7]
+l1 = System.from_bodies("earth", "moon").get_libration_point(1)
+def do(cm, op):
+    if op[0] == "D": cm.degree = DEG[int(op[1])]; return ("none",)
+    if op[0] == "H": h = cm.hamiltonian(DEG[int(op[1])]); return ("ham", int(h.degree))
+    if op == "Y": return ("hamsys", int(cm.dynamics.hamsys.degree))
+    if op == "L": return ("pipeline", int(cm.dynamics.pipeline.degree))
+    if op[0] == "M": m = cm.poincare_map(EN[int(op[1])]); return ("map", float(m.energy) if hasattr(m, "energy") else 0.0, int(cm.degree))
+cm = CenterManifold(l1, DEG[2])
+for op in HIST[:-1]: do(cm, op)
+twin = CenterManifold(l1, cm.degree)
+a, b = do(cm, HIST[-1]), do(twin, HIST[-1])
+state_a, state_b = int(cm.degree), int(twin.degree)
+after_a, after_b = do(cm, "Y"), do(twin, "Y")
+_verdict(a != b or state_a != state_b or after_a != after_b, history=HIST, degrees=DEG, returned=(a, b), degree_after=(state_a, state_b), hamsys_degree_after=(after_a, after_b))
+''' % (list(hist), degs)
+
+
+# --------------------------------------------------------------------------- (d) histories on the real manifold service
+
+def manifold_histories(chk, max_len):
+    """Real _ManifoldDynamicsService on a stand-in manifold of a stand-in orbit whose state and period can change (as a correction
+    or a period assignment on the generating orbit does).  STM integration, the manifold computation and the eigen-decomposition
+    are uninterpreted functions of all logical inputs.  Differential against a fresh service on a fresh orbit in the same state."""
+    from hiten.algorithms.types.services import manifold as sm
+    cls = sm._ManifoldDynamicsService
+    chk.encode(cls.compute_stm, cls.compute_manifold, cls.compute_stability, cls.__dict__['manifold_result'].fget, cls.__dict__['generator'].fget,
+               cls.__dict__['eigendecomposition_config'].fset)
+    saved = {n: getattr(sm, n) for n in ('_compute_stm', 'StabilityPipeline')}
+    sm._compute_stm = lambda dynsys, x0, per, steps=None, forward=1, **k: (None, None, ('PHI', syms(x0), Sym.lift(per), steps, forward), None)
+
+    def make_generator(config=None):
+        g = Stub(result=None, config=config)
+
+        def compute(domain_obj=None, options=None):
+            g.result = ('EIG', config, domain_obj, options.to_dict()['tol'])
+            return g
+        g.compute = compute
+        return g
+    sm.StabilityPipeline = Stub(with_default_engine=make_generator)
+
+    def run_compute(self, **k):
+        return ('MANIFOLD', syms(self.orbit.initial_state), Sym.lift(self.period), self.stable, self.direction, tuple(sorted((n, v) for n, v in k.items() if n != 'show_progress')))
+    Svc = type('Man', (cls,), {'_run_compute': run_compute})
+
+    class Obj(Stub):
+        def __hash__(self):
+            return 7
+
+        def __eq__(self, o):
+            return self is o
+    X = [[hvar('mx%d_%d' % (k, i)) for i in range(2)] for k in range(2)]
+    P = [hvar('mper%d' % i) for i in range(2)]
+    STEP = [hvar('mstep%d' % i) for i in range(2)]
+    TOL = [hvar('mtol%d' % i) for i in range(2)]
+    ex = Explorer(max_paths=20000, time_budget_s=1500)
+    ex.congruence = True
+    with explore.activate(ex):
+        for p in P:
+            ex.assume(p > 0)
+    counter = [0]
+
+    def fresh(state, period, cfg):
+        counter[0] += 2
+        orbit = Obj(initial_state=np.array(list(state)), period=period, libration_point=Stub(system=Stub(mu=W.var('mu'), dynsys='DYN', var_dynsys='VAR', jacobian_dynsys='JAC')),
+                    __verif_id__=2000 + counter[0])
+        dom = Obj(_stable=True, _direction='positive', _generating_orbit=orbit, __verif_id__=2001 + counter[0])
+        svc = Svc(dom)
+        dom.dynamics = svc
+        if cfg != 'ECFG0':
+            svc.eigendecomposition_config = cfg
+        else:
+            svc._eigendecomposition_config = 'ECFG0'
+        return svc
+
+    def options(k):
+        tol = TOL[k]
+        return Stub(to_dict=lambda: {'delta': 1, 'tol': tol})
+
+    def do(svc, op):
+        orbit = svc.orbit
+        if op[0] == 'X':
+            orbit.initial_state = np.array(list(X[1]))
+            return ('none',)
+        if op[0] == 'P':
+            orbit.period = P[1]
+            return ('none',)
+        if op[0] == 'S':
+            return svc.compute_stm(steps=int(op[1]))
+        if op[0] == 'C':
+            return svc.compute_manifold(step=STEP[int(op[1])], integration_fraction=1, NN=1, displacement=1, method='adaptive', order=8, dt=1, energy_tol=1, safe_distance=1, show_progress=False)
+        if op == 'R':
+            return svc.manifold_result
+        if op[0] == 'E':
+            return svc.compute_stability(options(int(op[1]))).result
+        if op == 'K':
+            svc.eigendecomposition_config = 'ECFG1' if svc.eigendecomposition_config == 'ECFG0' else 'ECFG0'
+            return ('none',)
+        raise AssertionError(op)
+
+    def run_history(hist):
+        counter[0] = 0
+        svc = fresh(X[0], P[0], 'ECFG0')
+        last_c = None
+        for op in hist[:-1]:
+            before = (list(svc.orbit.initial_state), svc.orbit.period)
+            do(svc, op)
+            if op[0] == 'C':
+                last_c = op
+            elif op[0] in 'XP' and not eqv(before, (list(svc.orbit.initial_state), svc.orbit.period)):
+                last_c = None       # the orbit really changed: results computed before belong to another state
+        twin = fresh(list(svc.orbit.initial_state), svc.orbit.period, svc.eigendecomposition_config)
+        if hist[-1] == 'R' and last_c is not None:
+            do(twin, last_c)        # manifold_result is "the result of the most recent compute of the current state"
+        got, want = do(svc, hist[-1]), do(twin, hist[-1])
+        names = {'S': 'compute_stm', 'C': 'compute_manifold', 'R': 'manifold_result', 'E': 'compute_stability'}
+        if hist[-1][0] in names and not eqv(got, want):
+            return ['%s returns a value that a fresh manifold of the orbit in its current state would not compute' % names[hist[-1][0]]]
+        return []
+    alphabet = ['X', 'P', 'S5', 'S9', 'C0', 'C1', 'R', 'E0', 'E1', 'K']
+    violations, nhist = {}, 0
+    try:
+        for L in range(1, max_len + 1):
+            for hist in itertools.product(alphabet, repeat=L):
+                if hist[-1][0] in 'XPK':
+                    continue
+                nhist += 1
+                for p in ex.run(lambda h=hist: run_history(h)):
+                    if p.exc is not None:
+                        violations.setdefault('raised %s: %s' % (type(p.exc).__name__, str(p.exc)[:60]), (hist, {}, [hist]))
+                        continue
+                    for pr in p.value:
+                        if pr not in violations:
+                            v, m = ex.check(p.conds(), p.atoms())
+                            violations[pr] = (hist, model_to_env(m) if m is not None else {}, [hist])
+                        elif len(violations[pr][2]) < 200 and hist not in violations[pr][2]:
+                            violations[pr][2].append(hist)
+    finally:
+        for n, v in saved.items():
+            setattr(sm, n, v)
+    chk.absorb(ex)
+    chk.note('manifold: %d histories of length <= %d over %s' % (nhist, max_len, alphabet))
+    if ex.capped or ex.unknown or ex.nondeterministic:
+        chk.unknown('C20/(d)manifold-histories/complete', 'exploration incomplete (capped=%s, unknown=%d, nondeterministic=%d)' % (ex.capped, ex.unknown, ex.nondeterministic))
+    if not violations:
+        chk.ok('C20/(d)manifold-histories', '%d operation sequences of length <= %d over %s x all equality patterns of the symbolic orbit states, periods, steps and tolerances: the last operation returns what a fresh manifold of the orbit in its current state computes' % (nhist, max_len, alphabet),
+               sample={'histories': nhist, 'alphabet': alphabet})
+    for pr, (hist, env, alts) in violations.items():
+        shapes, picked = set(), []
+        for h in alts:
+            sig = tuple(x[0] for x in h)
+            if sig not in shapes and len(picked) < 4:
+                shapes.add(sig)
+                picked.append(h)
+        chk.fail('C20/(d)manifold-histories/' + pr[:80], '%s after the history %s (also after %s)' % (pr, list(hist), [list(h) for h in picked[1:]]), [_replay_manifold(h) for h in picked], env, replay_timeout=900)
+    return nhist
+
+
+def _replay_manifold(hist):
+    return '''
+import warnings; warnings.filterwarnings("ignore")
+from hiten.system import System
+from hiten.algorithms.linalg.options import EigenDecompositionOptions
+HIST = %r
+l1 = System.from_bodies("earth", "moon").get_libration_point(1)
+def mk_orbit(state=None, period=None):
+    o = l1.create_orbit("halo", amplitude_z=0.02, zenith="southern")
+    if state is None:
+        o.correct(); return o
+    o2 = type(o)(l1, initial_state=np.array(state, dtype=float)); o2.period = period; return o2
+def do(m, op):
+    o = m.dynamics.orbit
+    if op[0] == "X":
+        other = l1.create_orbit("halo", amplitude_z=0.03, zenith="southern"); other.correct()
+        o.dynamics._initial_state = other.initial_state.copy(); o.period = other.period; return ("none",)
+    if op[0] == "P": o.period = o.period * 1.01; return ("none",)
+    if op[0] == "S": r = m.dynamics.compute_stm(steps=int(op[1]) * 40); return ("stm", np.asarray(r[2]))
+    if op[0] == "C":
+        r = m.dynamics.compute_manifold(step=(0.25, 0.5)[int(op[1])], integration_fraction=0.2, NN=1, displacement=1e-6, method="adaptive", order=8, dt=1e-3, energy_tol=1e-6, safe_distance=2.0, show_progress=False)
+        return ("manifold", np.asarray(r[2][0]) if len(r[2]) else np.zeros(1), np.float64(len(r[2])))
+    if op == "R":
+        r = m.dynamics.manifold_result
+        return ("none",) if r is None else ("manifold", np.asarray(r[2][0]) if len(r[2]) else np.zeros(1), np.float64(len(r[2])))
+    if op[0] == "E":
+        g = m.dynamics.compute_stability(EigenDecompositionOptions(delta=1e-6, tol=(1e-6, 1e4)[int(op[1])]))
+        vals, vecs = g.eigenvalues, g.eigenvectors
+        return ("eig", np.sort_complex(np.asarray(vals[0]).ravel()), np.sort_complex(np.asarray(vals[1]).ravel()), np.float64(np.asarray(vals[2]).size), np.float64(np.asarray(vecs[0]).shape[1]))
+    if op == "K":
+        import dataclasses
+        from hiten.algorithms.linalg.types import _SystemType
+        cfg = m.dynamics.eigendecomposition_config
+        m.dynamics.eigendecomposition_config = dataclasses.replace(cfg, system_type=_SystemType.CONTINUOUS if cfg.system_type == _SystemType.DISCRETE else _SystemType.DISCRETE)
+        return ("none",)
+def equal(a, b):
+    if len(a) != len(b) or a[0] != b[0]: return False
+    return all(x.shape == y.shape and np.allclose(x, y, rtol=1e-8, atol=1e-10) for x, y in zip(a[1:], b[1:]))
+o = mk_orbit(); m = o.manifold(stable=True, direction="positive")
+last_c = None
+for op in HIST[:-1]:
+    do(m, op)
+    if op[0] == "C": last_c = op
+    elif op[0] in "XP": last_c = None
+twin_orbit = mk_orbit(o.initial_state.copy(), o.period); twin = twin_orbit.manifold(stable=True, direction="positive")
+twin.dynamics.eigendecomposition_config = m.dynamics.eigendecomposition_config
+if HIST[-1] == "R" and last_c is not None: do(twin, last_c)
+a, b = do(m, HIST[-1]), do(twin, HIST[-1])
+_verdict(not equal(a, b), history=HIST, kinds=(a[0], b[0]), shapes=([x.shape for x in a[1:]], [x.shape for x in b[1:]]))
+''' % (list(hist),)
+
+
+# --------------------------------------------------------------------------- (e) histories across a libration point and the objects it hands out
+
+def libration_histories(chk, max_len):
+    """Real _LibrationDynamicsService on a stand-in point.  center_manifold(degree) hands out an object whose degree the caller
+    may change afterwards (stand-in with the real degree/pipeline contract); the eigen pipeline and the Hamiltonian pipeline are
+    uninterpreted functions of their logical inputs.  Differential against a fresh service on a fresh point."""
+    from hiten.algorithms.types.services import libration as sl
+    cls = sl._LibrationDynamicsService
+    chk.encode(cls.compute_stability, cls.center_manifold, cls.hamiltonian, cls.hamsys, cls.__dict__['generator'].fget)
+    saved = {n: getattr(sl, n) for n in ('StabilityPipeline', 'CenterManifold', '_LibrationPointInterface')}
+
+    def make_generator(config=None, interface=None):
+        g = Stub(result=None)
+
+        def compute(domain_obj=None, options=None):
+            g.result = ('EIG', config, options.to_dict()['tol'])
+            return g
+        g.compute = compute
+        return g
+    sl.StabilityPipeline = Stub(with_default_engine=make_generator)
+    sl._LibrationPointInterface = lambda: 'IFACE'
+
+    class CM:
+        """Stand-in centre manifold: a mutable degree; the pipeline is a function of the CURRENT degree."""
+
+        def __init__(self, point, degree):
+            self.point, self.degree = point, degree
+            self.dynamics = _Dyn(self)
+
+        def compute(self, form='center_manifold_real'):
+            return ('HAM', Sym.lift(self.degree), form)
+
+    class _Dyn:
+        def __init__(self, cm):
+            self._cm = cm
+
+        @property
+        def pipeline(self):
+            cm = self._cm
+            return Stub(get_hamiltonian=lambda form: Stub(tag=('HAM', Sym.lift(cm.degree), form), hamsys=('HAMSYS', Sym.lift(cm.degree), form)))
+    sl.CenterManifold = CM
+    Svc = type('Lib', (cls,), {})
+    Svc.__abstractmethods__ = frozenset()
+
+    class Obj(Stub):
+        def __hash__(self):
+            return 7
+
+        def __eq__(self, o):
+            return self is o
+    D = [ISym(W.var('ldeg%d' % i).t) for i in range(2)]
+    TOL = [hvar('ltol%d' % i) for i in range(2)]
+    ex = Explorer(max_paths=20000, time_budget_s=1500)
+    ex.congruence = True
+    with explore.activate(ex):
+        for d in D:
+            ex.assume(d >= 1)
+    counter = [0]
+
+    def fresh(cfg):
+        counter[0] += 1
+        dom = Obj(system=Stub(mu=W.var('mu')), idx=1, __verif_id__=3000 + counter[0])
+        svc = Svc(dom)
+        dom.dynamics = svc
+        svc._eigendecomposition_config = cfg
+        return svc
+
+    def do(svc, op, handles):
+        if op[0] == 'G':
+            h = svc.center_manifold(D[int(op[1])])
+            handles.append(h)
+            return ('CM', Sym.lift(h.degree))
+        if op[0] == 'D':
+            if handles:
+                handles[-1].degree = D[int(op[1])]      # the caller re-targets the object it was handed
+            return ('none',)
+        if op[0] == 'H':
+            return svc.hamiltonian(D[int(op[1])], 'physical').tag
+        if op[0] == 'Y':
+            return svc.hamsys(D[int(op[1])], 'physical')
+        if op[0] == 'E':
+            tol = TOL[int(op[1])]
+            return svc.compute_stability(Stub(to_dict=lambda: {'delta': 1, 'tol': tol})).result
+        if op == 'K':
+            svc.eigendecomposition_config = 'LCFG1' if svc.eigendecomposition_config == 'LCFG0' else 'LCFG0'
+            return ('none',)
+        raise AssertionError(op)
+
+    def run_history(hist):
+        counter[0] = 0
+        svc, handles = fresh('LCFG0'), []
+        for op in hist[:-1]:
+            do(svc, op, handles)
+        twin = fresh(svc.eigendecomposition_config)        # the point itself has no mutable state besides its configuration
+        got, want = do(svc, hist[-1], handles), do(twin, hist[-1], [])
+        names = {'G': 'center_manifold(degree)', 'H': 'hamiltonian(degree, form)', 'Y': 'hamsys(degree, form)', 'E': 'compute_stability'}
+        if hist[-1][0] in names and not eqv(got, want):
+            return ['%s returns a value that a fresh libration point would not compute' % names[hist[-1][0]]]
+        return []
+    alphabet = ['G0', 'G1', 'D0', 'D1', 'H0', 'H1', 'Y0', 'E0', 'E1', 'K']
+    violations, nhist = {}, 0
+    try:
+        for L in range(1, max_len + 1):
+            for hist in itertools.product(alphabet, repeat=L):
+                if hist[-1][0] in 'DK':
+                    continue
+                nhist += 1
+                for p in ex.run(lambda h=hist: run_history(h)):
+                    if p.exc is not None:
+                        violations.setdefault('raised %s: %s' % (type(p.exc).__name__, str(p.exc)[:60]), (hist, {}, [hist]))
+                        continue
+                    for pr in p.value:
+                        if pr not in violations:
+                            v, m = ex.check(p.conds(), p.atoms())
+                            violations[pr] = (hist, model_to_env(m) if m is not None else {}, [hist])
+                        elif len(violations[pr][2]) < 200 and hist not in violations[pr][2]:
+                            violations[pr][2].append(hist)
+    finally:
+        for n, v in saved.items():
+            setattr(sl, n, v)
+    chk.absorb(ex)
+    chk.note('libration point: %d histories of length <= %d over %s' % (nhist, max_len, alphabet))
+    if ex.capped or ex.unknown or ex.nondeterministic:
+        chk.unknown('C20/(e)libration-histories/complete', 'exploration incomplete (capped=%s, unknown=%d, nondeterministic=%d)' % (ex.capped, ex.unknown, ex.nondeterministic))
+    if not violations:
+        chk.ok('C20/(e)libration-histories', '%d operation sequences of length <= %d over %s (including re-targeting a centre manifold the point handed out) x all equality patterns of the symbolic degrees and tolerances: the last operation returns what a fresh libration point computes' % (nhist, max_len, alphabet),
+               sample={'histories': nhist, 'alphabet': alphabet})
+    for pr, (hist, env, alts) in violations.items():
+        shapes, picked = set(), []
+        for h in alts:
+            sig = tuple(x[0] for x in h)
+            if sig not in shapes and len(picked) < 4:
+                shapes.add(sig)
+                picked.append(h)
+        chk.fail('C20/(e)libration-histories/' + pr[:80], '%s after the history %s (also after %s)' % (pr, list(hist), [list(h) for h in picked[1:]]), [_replay_libration(h) for h in picked], env, replay_timeout=900)
+    return nhist
+
+
+def _replay_libration(hist):
+    return '''
+import warnings; warnings.filterwarnings("ignore")
+from hiten.system import System
+from hiten.algorithms.linalg.options import EigenDecompositionOptions
+HIST, DEG = %r, [3, 2]
+def point(): return System.from_bodies("earth", "moon").get_libration_point(1)
+def do(p, op, handles):
+    if op[0] == "G": h = p.get_center_manifold(DEG[int(op[1])]); handles.append(h); return ("cm", int(h.degree))
+    if op[0] == "D":
+        if handles: handles[-1].degree = DEG[int(op[1])]
+        return ("none",)
+    if op[0] == "H": return ("ham", int(p.hamiltonian(max_deg=DEG[int(op[1])], form="physical").degree))
+    if op[0] == "Y": return ("hamsys", int(p.dynamics.hamsys(DEG[int(op[1])], "physical").degree))
+    if op[0] == "E":
+        g = p.dynamics.compute_stability(EigenDecompositionOptions(delta=1e-6, tol=(1e-6, 1e4)[int(op[1])])); v = g.eigenvalues
+        return ("eig", tuple(int(np.asarray(x).size) for x in v))
+    if op == "K":
+        import dataclasses
+        from hiten.algorithms.linalg.types import _SystemType
+        cfg = p.dynamics.eigendecomposition_config
+        p.dynamics.eigendecomposition_config = dataclasses.replace(cfg, system_type=_SystemType.DISCRETE if cfg.system_type == _SystemType.CONTINUOUS else _SystemType.CONTINUOUS)
+        return ("none",)
+p, handles = point(), []
+for op in HIST[:-1]: do(p, op, handles)
+twin = point(); twin.dynamics.eigendecomposition_config = p.dynamics.eigendecomposition_config
+a, b = do(p, HIST[-1], handles), do(twin, HIST[-1], [])
+_verdict(a != b, history=HIST, returned=(a, b))
+''' % (list(hist),)
+
+
 def main():
     chk = Check(PID)
     thorough = chk.tier == 'thorough'
@@ -420,8 +920,14 @@ def main():
     key_builder(chk)
     if thorough:
         orbit_histories(chk, 4, ['P0', 'P1', 'R5', 'R9', 'M', 'S', 'E', 'T', 'C0', 'C1', 'K', 'G0'], 'all')
+        cm_histories(chk, 4)
+        manifold_histories(chk, 4)
+        libration_histories(chk, 4)
     else:
         orbit_histories(chk, 3, ['P0', 'P1', 'R5', 'R9', 'M', 'S', 'E', 'T', 'C0', 'C1', 'K', 'G0'], 'all')
+        cm_histories(chk, 3)
+        manifold_histories(chk, 3)
+        libration_histories(chk, 3)
     return chk.finish()
 
 
